@@ -214,7 +214,25 @@ def check(P: Project, R: Report) -> None:
             if "emit" in st.events:
                 continue
             n_skip += 1
-            asked = sorted(l for l in st.lits if any(l == o or l.startswith((f"{o} is not None", f"{o} and ", f"len({o})")) for o in opts))
+            def _asks(e) -> bool:
+                """the expression can only hold when one of the caller's options was given"""
+                if isinstance(e, ast.Name):
+                    return e.id in opts
+                if isinstance(e, ast.BoolOp):
+                    return (any if isinstance(e.op, ast.And) else all)(_asks(v) for v in e.values)
+                if isinstance(e, ast.Call) and call_name(e) in ("bool", "len") and len(e.args) == 1:
+                    return _asks(e.args[0])
+                if isinstance(e, ast.Compare) and len(e.ops) == 1 and isinstance(e.ops[0], ast.IsNot) and ast.unparse(e.comparators[0]) == "None":
+                    return _asks(e.left)
+                return False
+
+            def _parsed(l):
+                try:
+                    return ast.parse(l, mode="eval").body
+                except SyntaxError:
+                    return ast.Constant(value=None)
+
+            asked = sorted(l for l in st.lits if _asks(_parsed(l)))
             about = sorted(l[:60] for l in st.lits)[:6]
             R.ob("R2", "fallback dump leaves a member out only at the caller's request (include / exclude / exclude_none)", bool(asked), f"{base.rel}:{dump.lineno}",
                  f"a member of the instance dict is skipped under {about} — no caller option is involved: an unknown wire member with such a name is lost when the object is serialised back",
